@@ -49,12 +49,173 @@ func runC12(l *core.Ledger) {
 	l.With(map[string]string{"C10-N2": "C12-X2"}, func() { c10N2(l, r) })
 	c12X4(l, r)
 	c12X5(l, r)
-	l.With(map[string]string{"C07-E4": "C12-X6"}, func() { c07E4(l, r) })
+	l.Rule("C12-X8", "the stream reader returns only after failing every pending call: every path from a RecvMsg to a return of the reader passes the fail-all routine")
+	l.With(map[string]string{"C07-E4": "C12-X6", "C12-X8": "C12-X8"}, func() { c07E4(l, r) })
 	// the per-write watcher goroutine ends with the write (close(done) on every exit of
 	// sendMsg), not only with the request's context - which may never end and is not
 	// touched by Close
 	l.With(map[string]string{"C08-B3": "C12-X2"}, func() { c08B3x(l, r, false) })
 	c12X7(l, r)
+	c12X9(l, r)
+}
+
+// c12X9: Close closes the nodes of a snapshot of the pool. A node that enters
+// the pool after the snapshot is never closed - its goroutines and connection
+// outlive every Close - unless insertion and Close agree on a flag: Close sets
+// it under the pool lock before it reads the pool, the inserting function tests
+// it in the critical section of the insertion.
+func c12X9(l *core.Ledger, r *rt) {
+	l.Rule("C12-X9", "a closed manager takes no new nodes: Close sets a closed flag of the manager under the pool lock before it reads the pool; every insertion into the pool is dominated by the not-closed edge of a test of that flag read in the same critical section")
+	cl := r.fn("RawManager.Close")
+	if cl == nil {
+		l.Unknown("C12-X9", "anchor/Close", token.NoPos, "RawManager.Close not found")
+		return
+	}
+	// functions on the Close path (static callees and closures, depth 4)
+	var onClose []*ssa.Function
+	seen := map[*ssa.Function]bool{}
+	var walk func(f *ssa.Function, d int)
+	walk = func(f *ssa.Function, d int) {
+		if f == nil || seen[f] || d > 4 || !inRepo(f) || len(f.Blocks) == 0 {
+			return
+		}
+		seen[f] = true
+		onClose = append(onClose, f)
+		for _, a := range f.AnonFuncs {
+			walk(a, d+1)
+		}
+		sx.AllInstrs(f, func(_ sx.Node, in ssa.Instruction) {
+			if cc := sx.CallOf(in); cc != nil {
+				walk(cc.StaticCallee(), d+1)
+			}
+		})
+	}
+	walk(cl, 0)
+	readsPool := func(f *ssa.Function) bool {
+		found := false
+		var w func(f *ssa.Function, d int)
+		vis := map[*ssa.Function]bool{}
+		w = func(f *ssa.Function, d int) {
+			if f == nil || vis[f] || d > 3 || !inRepo(f) || len(f.Blocks) == 0 || found {
+				return
+			}
+			vis[f] = true
+			sx.AllInstrs(f, func(_ sx.Node, in ssa.Instruction) {
+				if fa, ok := in.(*ssa.FieldAddr); ok && isNamed(fa.X.Type(), core.RootModule, "RawManager") {
+					if n := fieldOf(fa.X.Type(), fa.Field).Name(); n == "nodes" || n == "lookup" {
+						found = true
+					}
+				}
+				if cc := sx.CallOf(in); cc != nil {
+					w(cc.StaticCallee(), d+1)
+				}
+			})
+		}
+		w(f, 0)
+		return found
+	}
+	var flag *types.Var
+	var setAt *ssa.Store
+	for _, f := range onClose {
+		ls := sx.AnalyzeLocks(f)
+		sx.AllInstrs(f, func(nd sx.Node, in ssa.Instruction) {
+			st, ok := in.(*ssa.Store)
+			if !ok {
+				return
+			}
+			fa, ok := st.Addr.(*ssa.FieldAddr)
+			if !ok || !isNamed(fa.X.Type(), core.RootModule, "RawManager") {
+				return
+			}
+			if b, isB := constBool(st.Val); !isB || !b {
+				return
+			}
+			if sx.Holds(ls.HeldAt(nd), "mu", true) {
+				flag = fieldOf(fa.X.Type(), fa.Field)
+				setAt = st
+			}
+		})
+	}
+	if flag == nil {
+		l.Bad("C12-X9", "gorums.(RawManager).Close/marks-closed", cl.Pos(), "Close does not record under the pool lock that the manager is closed: a node added after Close - or while Close runs, after its snapshot of the pool - is connected, starts its goroutines and is never closed by any Close")
+		return
+	}
+	// the mark precedes every read of the pool on the Close path
+	sf := setAt.Parent()
+	okOrder := true
+	sx.AllInstrs(sf, func(nd sx.Node, in ssa.Instruction) {
+		cc := sx.CallOf(in)
+		if cc == nil || cc.StaticCallee() == nil || !readsPool(cc.StaticCallee()) {
+			return
+		}
+		if !sx.InstrDominates(sf, setAt, nd) {
+			okOrder = false
+		}
+	})
+	l.Check(okOrder, "C12-X9", "gorums.(RawManager).Close/marks-closed", setAt.Pos(), "the manager is marked closed under mu before Close reads the pool", "Close reads the pool before it marks the manager closed: a node inserted between the snapshot and the mark is never closed")
+	// insertions
+	n := 0
+	for _, f := range allFuncs(l.Prog, r.pkg) {
+		f := f
+		var ls *sx.LockState
+		sx.AllInstrs(f, func(nd sx.Node, in ssa.Instruction) {
+			mu, ok := in.(*ssa.MapUpdate)
+			if !ok || !sx.All(sx.Origins(mu.Map), sx.IsFieldNamed("lookup", sx.AnyOrigin)) {
+				return
+			}
+			n++
+			if ls == nil {
+				ls = sx.AnalyzeLocks(f)
+			}
+			key := fmt.Sprintf("%s/insert#%d", fnKey(f), n)
+			ok2 := false
+			sx.AllInstrs(f, func(in2 sx.Node, x ssa.Instruction) {
+				ifi, isIf := x.(*ssa.If)
+				if !isIf || ok2 {
+					return
+				}
+				v, _ := condOf(ifi)
+				ld, isLoad := v.(*ssa.UnOp)
+				if !isLoad || !sx.All(sx.Origins(v), func(o sx.Origin) bool { return o.Kind == sx.KField && o.Field == flag }) {
+					return
+				}
+				if !sx.Holds(ls.HeldAt(sx.NodeOf(ld)), "mu", false) || !sx.Holds(ls.HeldAt(nd), "mu", true) {
+					return
+				}
+				// no release of the lock between the read of the flag and the insertion
+				released := false
+				isUnlock := func(x sx.Node) bool {
+					c, isCall := x.Instr().(*ssa.Call)
+					if !isCall {
+						return false
+					}
+					op, isOp := sx.ClassifyLockOp(&c.Call)
+					return isOp && !op.Acquire
+				}
+				sx.AllInstrs(f, func(u sx.Node, _ ssa.Instruction) {
+					if !isUnlock(u) {
+						return
+					}
+					_, a := sx.Reach(sx.NodeOf(ld), func(x sx.Node) bool { return x == u }, sx.Query{BlockNode: sx.IsInstr(mu)})
+					_, b := sx.Reach(u, sx.IsInstr(mu), sx.Query{})
+					if a && b {
+						released = true
+					}
+				})
+				if released {
+					return
+				}
+				if _, reach := sx.Reach(sx.Node{B: edgeWhere(ifi, true).To, I: -1}, sx.IsInstr(mu), sx.Query{}); reach {
+					return
+				}
+				if sx.EdgeDominates(f, edgeWhere(ifi, false), nd) {
+					ok2 = true
+				}
+			})
+			l.Check(ok2, "C12-X9", key, mu.Pos(), "insertion only on the not-closed edge of the flag read in the same hold of mu", "a node is inserted into the pool without testing, in the critical section of the insertion, the closed flag that Close sets: a node added behind Close's back is never closed")
+		})
+	}
+	l.Floor("C12-X9", n, 1, "insertions into the node pool")
 }
 
 func c12X1(l *core.Ledger, r *rt) {
